@@ -2,7 +2,7 @@
    embedding on which the faithful model of the string-concat-in-loop detector breaks the embedding law
    (closed by vm_compute).  The same inputs are in corpus/C19 and are replayed on the implementation on every run. *)
 From TL Require Import Lib.Base Lib.GenTypes Gen.EmbedGen Model.Embed Model.PrintStmt Model.PerfConcat Model.StatelessCls
-     Model.MethodProp Model.EmbedRun Model.EmbedRun2 Actual.EmbedActual.
+     Model.MethodProp Gen.Embed2Gen Model.CondVerbose Model.EmbedRun Model.EmbedRun2 Actual.EmbedActual.
 
 (* docs/performance-linter.md, "String Concatenation Detection" *)
 Definition w_doc : list ast :=
@@ -91,4 +91,20 @@ Theorem C19_method_class_body_only_refuted :
   /\ method_reports method_actual w_user = [(2, 4, "User", "get_name")]
   /\ law_mp method_actual c_clsif w_user = false
   /\ law_mp m_ideal c_clsif w_user = true.
+Proof. vm_compute. repeat split; reflexivity. Qed.
+
+(* ---------------------------------------------------------------- conditional verbose *)
+(* docs/improper-logging-linter.md, `if verbose: logger.debug(...)` inside a function *)
+Definition w_verbose : list ast :=
+  [N "body" "FunctionDef" 1 0 "process_data" "" [N "args" "arguments" 1 0 "" "" [N "args" "arg" 1 17 "data" "" []; N "args" "arg" 1 23 "verbose" "" []];
+     N "body" "If" 2 4 "" "" [N "test" "Name" 2 7 "verbose" "" [];
+        N "body" "Expr" 3 8 "" "" [N "value" "Call" 3 8 "" "" [N "func" "Attribute" 3 8 "debug" "" [N "value" "Name" 3 8 "logger" "" []];
+           N "args" "Constant" 3 21 "Processing" "str" []]]]]].
+(* wrapped in `if _tv_cfg.verbose:` the one logger call is reported twice; the ideal detector reports it once, moved *)
+Definition c_verbose_if : ctx :=
+  Wrap (I "body" "If" 1 0 "" "") [N "test" "Attribute" 1 3 "verbose" "" [N "value" "Name" 1 3 "_tv_cfg" "" []]] [] 1 4 Hole.
+Theorem C19_condverbose_nested_refuted :
+  cv_reports cv_actual (plug c_verbose_if w_verbose) = [(4, 12, "", "debug"); (4, 12, "", "debug")]
+  /\ cv_reports v_ideal (plug c_verbose_if w_verbose) = shiftRs 1 4 (cv_reports v_ideal w_verbose)
+  /\ cv_reports v_ideal w_verbose = [(3, 8, "", "debug")].
 Proof. vm_compute. repeat split; reflexivity. Qed.
